@@ -577,9 +577,10 @@ func init() {
 	RaceStages["C14"] = RaceStageC14
 	register(&Spec{
 		ID: "C14", Level: "exploration",
-		Run:   RunC14,
-		Check: CheckC14,
-		Quick: 3000, Thorough: 200000,
+		Run:       RunC14,
+		Check:     CheckC14,
+		MustReach: []string{"task-switches", "tree-mode(GuessPaths+AnalyzeSources)", "opts:GuessPaths-with-unset-roots"},
+		Quick:     3000, Thorough: 200000,
 		Rule:            "per run (1) one seeded history of 2..12 Aggregate(level)/Aggregated.ToHTML/Snapshot.ToHTML calls on one snapshot built from groups of similar goroutines (so merges really happen), checked after EVERY operation: goroutines deep-equal a freshly parsed twin, result equal to the same operation on a fresh parse; (2) one tasksim case: 2..6 client tasks with scripts of scan/aggregate/render calls on shared and private snapshots and one shared Opts, interleaved by a seeded token scheduler at every intercepted Read/Write and call boundary, every task's results compared with the same script run alone; evaluations = operations checked + interleavings run; distinct_nontrivial = distinct histories of >= 2 operations in which a bucket merged >= 2 goroutines + distinct interleavings with >= 3 task switches; the free-running -race stage (not simulated) is reported under coverage.free_running",
 		Assumptions:     []string{"tasksim interleaves at I/O and call boundaries only; memory-access-level races are only sought by the uncontrolled -race stage, which is labelled as not simulated", "the HTML creation-time line is masked"},
 		Real:            []string{"stack.ScanSnapshot", "Snapshot.Aggregate", "Aggregated.ToHTML", "Snapshot.ToHTML"},
